@@ -257,6 +257,8 @@ func checkC03(p *Prog, r *Report) {
 	}
 	p.WithHelperParams(func() { c03GateArgs(p, ib, r) })
 	hasBindingRule(p, r, "R7")
+	r.Rule("R11", "a binding is revoked with the entity that holds it: RemoveEntityByAddress drops exactly the entity it hands back to the clean-up (retain truth table; shared with C06-R12) — an entity dropped on the side keeps its bindings, and its write permission, past removal and reconnect")
+	applyRetain(p, r, "R11", "spine", "DeviceRemote", "RemoveEntityByAddress", retainSpec{Field: F("DeviceRemote.entities"), Required: map[string]string{"entity": "=$"}})
 	approvalCleanupRule(p, r, "R8")
 	r.Rule("R6", "a binding is revoked exactly for the client it was made for: RemoveBinding keeps ⇔ ¬(client address ∧ server feature equal); RemoveBindingsForEntity keeps ⇔ ¬(client device ∧ client entity equal) — a disappearing writer loses its own bindings and nobody else's (retain truth tables, shared with C09-R2/C10-R1)")
 	applyRetain(p, r, "R6", "spine", "BindingManager", "RemoveBinding", retainSpec{Field: F("BindingManager.bindingEntries"),
